@@ -98,3 +98,22 @@ M("arc-zero-radius-length", ["C05"], "zero-radius arc has length 0 again",
   ("            if self.start is None or self.end is None:\n                return 0\n            return Point.distance(self.start, self.end)", "            return 0"))
 M("arc-rotation-radians", ["C05", "C01"], "rotation used without degree conversion for prx/pry",
   ("            Angle.degrees(rotation).as_radians, center.x, center.y", "            Angle.radians(rotation).as_radians, center.x, center.y"))
+
+# ---- affine maps (C02) -----------------------------------------------------------------------------------
+M("arc-sweep-flip-removed", ["C02"], "reflection no longer flips the arc's sweep",
+  ("            if other.determinant < 0:\n                self.sweep = -self.sweep\n            self._orthogonalize_axes()", "            self._orthogonalize_axes()"))
+M("arc-center-not-mapped", ["C02"], "Arc.__imul__ forgets the centre under translation-free check",
+  ("            if self.center is not None:\n                self.center *= other\n            if self.end is not None:\n                self.end *= other\n            if self.prx", "            if self.center is not None:\n                self.center *= other.vector()\n            if self.end is not None:\n                self.end *= other\n            if self.prx"))
+M("arc-orthogonalize-removed", ["C02"], "conjugate diameters kept as axes again",
+  ("                self.sweep = -self.sweep\n            self._orthogonalize_axes()\n        return self", "                self.sweep = -self.sweep\n        return self"))
+M("cubic-imul-control2-skipped", ["C02"], "CubicBezier.__imul__ skips control2 when it coincides with the end point",
+  ("            if self.control2 is not None:\n                self.control2 *= other\n            if self.end is not None:\n                self.end *= other\n        return self\n\n    def __len__(self):\n        return 4", "            if self.control2 is not None and self.control2 != self.end:\n                self.control2 *= other\n            if self.end is not None:\n                self.end *= other\n        return self\n\n    def __len__(self):\n        return 4"))
+M("transformable-imul-order", ["C02"], "Transformable.__imul__ pre-multiplies",
+  ("        if isinstance(other, Matrix):\n            self.transform *= other\n        return self\n\n    def __abs__(self):", "        if isinstance(other, Matrix):\n            self.transform = other * self.transform\n        return self\n\n    def __abs__(self):"))
+M("path-reify-no-reset", ["C02", "C18"], "Path.reify leaves the transform in place",
+  ("            for e in self._segments:\n                e *= self.transform\n        self.transform.reset()\n        return self", "            for e in self._segments:\n                e *= self.transform\n        return self"))
+M("roundshape-skew-branch-removed", ["C02", "C06"], "round shapes decomposed in transformed space under skew again",
+  ("                return [s * m for s in self.segments(transformed=False)]\n", "                pass\n"))
+M("subpath-imul-off-by-one", ["C02"], "Subpath.__imul__ misses its last segment",
+  ("    def __imul__(self, other):\n        if isinstance(other, str):\n            other = Matrix(other)\n        if isinstance(other, Matrix):\n            for e in self:\n                e *= other\n        return self\n\n    def __mul__(self, other):\n        if isinstance(other, (Matrix, str)):\n            n = copy(self)\n            n *= other\n            return n\n        return NotImplemented\n\n    __rmul__ = __mul__\n\n    def __iter__(self):",
+   "    def __imul__(self, other):\n        if isinstance(other, str):\n            other = Matrix(other)\n        if isinstance(other, Matrix):\n            for e in list(self)[:-1]:\n                e *= other\n        return self\n\n    def __mul__(self, other):\n        if isinstance(other, (Matrix, str)):\n            n = copy(self)\n            n *= other\n            return n\n        return NotImplemented\n\n    __rmul__ = __mul__\n\n    def __iter__(self):"))
